@@ -25,4 +25,26 @@ Definition tags_after (tags0 : str -> option node) (ref : str) (st : state) : st
 
 (* configuration of the copyGraph run that Copy starts *)
 Definition copy_cfg (dflt opt : Z) (refpusher mount : bool) (root : node) (cached0 : list node) : cfg :=
-  mkCfg (eff_K dflt opt) (if refpusher then MRefPush else MTagger) root mount true cached0.
+  mkCfg (eff_K dflt opt) (if refpusher then MRefPush else MTagger) root mount true cached0 [].
+
+(* internal/platform: Match and SelectManifest on a manifest list (WithTargetPlatform).
+   Strings are abstracted to numbers (0 = the empty string); a platform is
+   architecture, OS, OS version, variant, OS features. *)
+Record plat := mkPlat { p_arch : nat; p_os : nat; p_osver : nat; p_variant : nat; p_feats : list nat }.
+
+Definition plat_match (got : option plat) (want : plat) : bool :=
+  match got with
+  | None => false
+  | Some gp =>
+      Nat.eqb (p_arch gp) (p_arch want) && Nat.eqb (p_os gp) (p_os want) &&
+      (Nat.eqb (p_osver want) 0 || Nat.eqb (p_osver gp) (p_osver want)) &&
+      (Nat.eqb (p_variant want) 0 || Nat.eqb (p_variant gp) (p_variant want)) &&
+      forallb (fun f => existsb (Nat.eqb f) (p_feats gp)) (p_feats want)
+  end.
+
+(* the first entry of the index whose platform matches; None = ErrNotFound *)
+Fixpoint select_manifest (entries : list (node * option plat)) (want : plat) : option node :=
+  match entries with
+  | [] => None
+  | (n, p) :: r => if plat_match p want then Some n else select_manifest r want
+  end.
